@@ -1,40 +1,67 @@
 --------------------------- MODULE MC_Pipeline ---------------------------
-EXTENDS Pipeline, Json
-D1 == {"a"}
-D2 == {"a", "b"}
-W1 == {"w1"}
-W2 == {"w1", "w2"}
-W3 == {"w1", "w2", "w3"}
-COs == {"os"}
-CCt == {"ct"}
-CBoth == {"os", "ct"}
-CNone == {}
+EXTENDS Pipeline, Json, IOUtils
+(* Instances are selected through environment variables so that one cfg serves the variants the check script runs side by
+   side (clients, conflict mode, the as-coded/intended switches of the named deviations, model-level mutations):
+     PL_CLIENTS os|ct|both   PL_CONFLICTS 0|1   PL_RECONNECT 0|1   PL_KEEPLOW 0|1   PL_RECENTCUT 0|1   PL_MUT name
+     PL_FAIL 0|1   PL_DIE 0|1   PL_ABANDON 0|1
+     PL_MAXSEQ n   PL_BASE n   PL_MAXNUM n   PL_MAXSTEPS n   PL_WRITERS 1|2|3   PL_DOCS 1|2   PL_TIMED 0|1   PL_DUP n *)
+Env(n, dflt) == IF n \in DOMAIN IOEnv THEN IOEnv[n] ELSE dflt
+EInt(n, dflt) == IF n \in DOMAIN IOEnv THEN atoi(IOEnv[n]) ELSE dflt
+EBool(n, dflt) == IF n \in DOMAIN IOEnv THEN IOEnv[n] = "1" ELSE dflt
+EDocs == IF EInt("PL_DOCS", 2) = 1 THEN {"a"} ELSE {"a", "b"}
+EWriters == CASE EInt("PL_WRITERS", 2) = 1 -> {"w1"} [] EInt("PL_WRITERS", 2) = 3 -> {"w1", "w2", "w3"} [] OTHER -> {"w1", "w2"}
+EClients == CASE Env("PL_CLIENTS", "os") = "ct" -> {"ct"} [] Env("PL_CLIENTS", "os") = "both" -> {"os", "ct"}
+              [] Env("PL_CLIENTS", "os") = "none" -> {} [] OTHER -> {"os"}
+EBase == EInt("PL_BASE", 1)
+EMaxSeq == EInt("PL_MAXSEQ", 4)
+EMaxSeqT == EInt("PL_MAXSEQ", 5)
+EMaxSeqS == EInt("PL_MAXSEQ", 7)
+EMaxNum == EInt("PL_MAXNUM", 1)
+EMaxNum0 == EInt("PL_MAXNUM", 0)
+EConflicts == EBool("PL_CONFLICTS", FALSE)
+EReconnect == EBool("PL_RECONNECT", FALSE)
+EKeepLow == EBool("PL_KEEPLOW", FALSE)
+ERecentCut == EBool("PL_RECENTCUT", TRUE)
+ETimed == EBool("PL_TIMED", TRUE)
+EDup == EInt("PL_DUP", 1)
+EFail == EBool("PL_FAIL", TRUE)
+EDie == EBool("PL_DIE", TRUE)
+EAbandon == EBool("PL_ABANDON", TRUE)
+EMut == IF "PL_MUT" \in DOMAIN IOEnv /\ IOEnv["PL_MUT"] # "" THEN {IOEnv["PL_MUT"]} ELSE {}
+EMaxSteps == EInt("PL_MAXSTEPS", 8)
+EMaxStepsS == EInt("PL_MAXSTEPS", 18)
+
 (* Simulation: one successor per action KIND (FRAMEWORK: simulation bias), arguments drawn with RandomElement among the
-   enabled ones; deliveries doubled, and one delivery aimed at an event that closes the current gap or arrives late. *)
+   enabled ones; one delivery aimed at an event that closes the current gap or arrives late. *)
 RE(S) == RandomElement(S)
 IdleWs == {w \in Writers : wr[w].pc = "idle"}
 ResWs  == {w \in Writers : wr[w].pc = "res"}
 Deliverable == {e \in feed : Older(e) = {}}
 GapClosers == {e \in Deliverable : Declares(e) \cap (skipped \cup {next}) # {}}
+Leapers == {e \in Deliverable : e.seq > next}
+HotDocs == {d \in Docs : \E e \in feed : e.k = "mut" /\ e.d = d} \cup {wr[w].d : w \in ResWs}
 Coalescable == {e \in feed : Newer(e) # {}}
 SDeliver(S, keep) == S # {} /\ \E e \in {RE(S)} : Deliver(e, keep) /\ Step(Rec(IF e.k = "mut" THEN "Deliver" ELSE "DeliverUn", "", e.d, e.seq, keep))
 SimNext ==
   /\ Bound
   /\ \/ IdleWs # {} /\ \E w \in {RE(IdleWs)}, d \in {RE(Docs)} : Reserve(w, d) /\ Step(Rec("Reserve", w, d, 0, FALSE))
+     \/ IdleWs # {} /\ HotDocs # {} /\ \E w \in {RE(IdleWs)}, d \in {RE(HotDocs)} : Reserve(w, d) /\ Step(Rec("Reserve", w, d, 0, FALSE))
      \/ ResWs # {} /\ \E w \in {RE(ResWs)} : Cas(w) /\ Step(Rec("Cas", w, wr[w].d, 0, FALSE))
-     \/ ResWs # {} /\ RE(1..3) = 1 /\ \E w \in {RE(ResWs)} : Fail(w) /\ Step(Rec("Fail", w, wr[w].d, 0, FALSE))
-     \/ ResWs # {} /\ RE(1..4) = 1 /\ \E w \in {RE(ResWs)} : Die(w) /\ Step(Rec("Die", w, wr[w].d, 0, FALSE))
+     \/ ResWs # {} /\ RE(1..4) = 1 /\ \E w \in {RE(ResWs)} : Fail(w) /\ Step(Rec("Fail", w, wr[w].d, 0, FALSE))
+     \/ ResWs # {} /\ RE(1..6) = 1 /\ \E w \in {RE(ResWs)} : Die(w) /\ Step(Rec("Die", w, wr[w].d, 0, FALSE))
      \/ SDeliver(Deliverable, FALSE)
+     \/ SDeliver(Leapers, FALSE)
      \/ SDeliver(GapClosers, FALSE)
      \/ dup > 0 /\ RE(1..3) = 1 /\ SDeliver(Deliverable, TRUE)
      \/ Coalescable # {} /\ \E e \in {RE(Coalescable)} : Coalesce(e) /\ Step(Rec("Coalesce", "", e.d, e.seq, FALSE))
      \/ Tick /\ Step(Rec("Tick", "", "", 0, FALSE))
      \/ RE(1..3) = 1 /\ Abandon /\ Step(Rec("Abandon", "", "", 0, FALSE))
-     \/ Request /\ Step(Rec("Request", "", "", 0, FALSE))
+     \/ RE(1..3) = 1 /\ Request /\ Step(Rec("Request", "", "", 0, FALSE))
      \/ Connect /\ Step(Rec("Connect", "", "", 0, FALSE))
      \/ RE(1..3) = 1 /\ Disconnect /\ Step(Rec("Disconnect", "", "", 0, FALSE))
      \/ Iter /\ Step(Rec("Iter", "", "", 0, FALSE))
 SimSpec == Init /\ [][SimNext]_vars
-Cfg == [mn |-> MaxNum, conflicts |-> Conflicts, docs |-> Docs, writers |-> Writers, base |-> Base, clients |-> Clients]
+Cfg == [mn |-> MaxNum, conflicts |-> Conflicts, docs |-> Docs, writers |-> Writers, base |-> Base, clients |-> Clients,
+        timed |-> TimedAbandon]
 BehaviourExport == (Len(hist) = MaxSteps) => PrintT(<<"BEH", ToJson([cfg |-> Cfg, steps |-> hist])>>)
 =============================================================================
